@@ -373,6 +373,40 @@ def pi_stream(focus):
     return out
 
 
+def deep_pairs():
+    """documents nested a few hundred levels deep (beyond libxml2's default parser limit of 256: whatever serialises and
+    re-parses on the way fails; whatever recurses per level in Python comes near the recursion limit)"""
+    out = []
+    for depth in (260, 420):
+        l = "<a>" * depth + "<b>x</b><k/>" + "</a>" * depth
+        r = "<a>" * depth + "<k/><b>y</b><c i='1'/>" + "</a>" * depth
+        out.append((l, r))
+    return out
+
+
+def parse_deep(x):
+    return etree.fromstring(x, etree.XMLParser(huge_tree=True))
+
+
+def deep_stream(focus):
+    """oracle only (the scripts are judged by the strict interpreter and by patching; the model is not run on them)"""
+    from xmldiff import main
+    out = []
+    for a, b in deep_pairs():
+        try:
+            acts = main.diff_trees(parse_deep(a), parse_deep(b))
+        except Exception as ex:  # noqa
+            out.append({"what": "diff raised %r on documents nested %d levels deep" % (ex, a.count("<a>")),
+                        "replay": {"left": a, "right": b, "opts": {}, "deep": True, "finding_key": None}})
+            continue
+        L, R = parse_deep(a), parse_deep(b)
+        for p_, m in oracles.check_script(L, R, acts, ()) + oracles.check_patch(L, R, acts, ()):
+            if p_ == focus:
+                out.append({"what": "[documents nested %d levels deep] %s" % (a.count("<a>"), m),
+                            "replay": {"left": a, "right": b, "opts": {}, "deep": True, "finding_key": None}})
+    return out
+
+
 def evaluate(built, focus):
     """Run the property oracles on the implementation's outputs."""
     viols = []
@@ -562,6 +596,8 @@ def main(run, focus, extra_corr=None):
     viols, stats = evaluate(built, focus)
     if focus in ("C01", "C03"):
         viols += pi_stream(focus)
+    if focus in ("C01", "C04", "C05", "C17"):
+        viols += deep_stream(focus)
     run.log("correspondence: %d cases, %d disagreements; oracle: %d scripts / %d actions, %d violations of %s" %
             (corr["cases"], len(corr["bad"]), stats["scripts"], stats["actions"], len(viols), focus))
     corrs = [corr] + (extra_corr(run, rng, pinfo) if extra_corr else [])
@@ -594,6 +630,13 @@ def replay(run, path, focus):
     if "left" not in d:
         print("replay names a broken tie, not an input:", d.get("broken")); return 1
     opts = {k: (v if k != "uniqueattrs" else [tuple(x) if isinstance(x, list) else x for x in v]) for k, v in d["opts"].items()}
+    if d.get("deep"):
+        v = [x for x in deep_stream(focus) if x["replay"]["left"] == d["left"]]
+        for x in v:
+            print("violation:", x["what"])
+        if not v:
+            print("property holds on this input")
+        return 1 if v else 0
     c = differ_corr.build_case(d["left"], d["right"], opts)
     if c is None:        # outside the differ model (processing instructions): the public entry point only
         from xmldiff import main
